@@ -1,6 +1,6 @@
 (* C11 — Aggregates equal their definitions over exactly the selected items.
    Property theorems only; proofs are in Proofs/AggregatesProofs.v (flattening: Proofs/ValueProofs.v). *)
-From HX Require Import Model.Value Model.Operators Model.Lookup Model.Aggregates Proofs.ValueProofs Proofs.AggregatesProofs.
+From HX Require Import Model.Value Model.Operators Model.Lookup Model.Aggregates Proofs.ValueProofs Proofs.AggregatesProofs Proofs.MedianOrder.
 From Coq Require Import QArith Permutation Sorted.
 Open Scope Z_scope.
 
@@ -91,6 +91,28 @@ Example C11_examples :
   numeric_args [VInt 1; VList [VFlt (1 # 2)]].
 Proof. vm_compute. repeat split; try reflexivity. repeat constructor. Qed.
 
+(* MEDIAN and LARGE go through sorting: two sorted arrangements of the same items agree position by position in value,
+   so the median and the n-th largest value do not depend on the order of the items *)
+Theorem C11_sorted_arrangements_agree : forall s s', StronglySorted num_le s -> StronglySorted num_le s' -> Permutation s s' ->
+  forall k x x', nth_error s k = Some x -> nth_error s' k = Some x' -> (num_q x == num_q x')%Q.
+Proof. exact sorted_arrangements_agree. Qed.
+Theorem C11_MEDIAN_is_median_of_items : forall args, numeric_args args -> fn_MEDIAN args = median_items (items_of args).
+Proof. exact MEDIAN_is_median_of_items. Qed.
+Theorem C11_MEDIAN_order_free : forall ns ns', Permutation ns ns' ->
+  match ares_q (median_items ns), ares_q (median_items ns') with
+  | Some a, Some b => (a == b)%Q
+  | None, None => True
+  | _, _ => False
+  end.
+Proof. exact MEDIAN_order_free. Qed.
+Theorem C11_LARGE_order_free : forall ns ns' n, Permutation ns ns' ->
+  match large_items ns n, large_items ns' n with
+  | AOk a, AOk b => (num_q a == num_q b)%Q
+  | AErr e, AErr e' => e = e'
+  | _, _ => False
+  end.
+Proof. exact LARGE_order_free. Qed.
+
 Print Assumptions C11_regroup_invariant.
 Print Assumptions C11_SUM.
 Print Assumptions C11_AVERAGE.
@@ -102,3 +124,5 @@ Print Assumptions C11_order_free_variance.
 Print Assumptions C11_error_item.
 Print Assumptions C11_SUMIF_COUNTIF.
 Print Assumptions C11_IFS_row_selected.
+Print Assumptions C11_MEDIAN_order_free.
+Print Assumptions C11_LARGE_order_free.
